@@ -222,6 +222,16 @@ def gen_c12(ctx):
         # the same mismatch for a module definition without a compiled-in index range (the database numbers it itself)
         add(u, {"0": {"kind": "ident", "delta": rng.below(1000)}}, [{"op": "reg_mod", "lib": 0, "range": False, "ident": "match", "uniq": rng.choice([None, 2])}, {"op": "verify"}])
         add(u, {"0": {"kind": "stale", "delta": rng.choice([1, 2, -1])}}, [{"op": "reg_mod", "lib": 0, "range": True, "ident": "match"}, {"op": "verify"}])
+    # one number of the file replaced: every numeric token of two small generated files x a few values (thorough: more files);
+    # the outcome is not modelled, the library must survive (no crash, abort, hang or sanitizer report)
+    for n in range(2 if not thorough else 10):
+        rng = run_rng(ctx.seed, NAME + "/c12badnum", n)
+        u = {"seed": rng.next(), "k": 1, "size": rng.choice([1, 2]), "shared": 0, "minors": [rng.choice([1, 3])], "alt": n % 2 == 1}
+        data = F.serialise(idb_gen.gen_universe(Rng(u["seed"]), 1, size=u["size"], shared=0, minor_choices=tuple(u["minors"]))[0])
+        ntok = len(re.findall(rb"(?<![\w.])-?\d+(?![\w.])", data))
+        for which in range(ntok):
+            for value in ((-5, 2000000000) if not thorough else (-5, -1, 2000000000, 2147483647, -2147483648)):
+                add(u, {"0": {"kind": "badnum", "which": which, "value": value}}, [{"op": "reg_db", "lib": 0}, {"op": "touch"}])
     # mixed format versions in one process: an old file after a current one and vice versa, with and without a fault in between
     for n in range(24 if not thorough else 240):
         rng = run_rng(ctx.seed, NAME + "/c12mix", n)
